@@ -91,6 +91,11 @@ func (core *JApiCore) collectPathVariables(d *directive.Directive) *jerr.JApiErr
 
 	path, err := d.Path()
 	if err != nil {
+		// The path is missing or wrong at the directive which the Path directive
+		// describes, not at the Path directive.
+		if d.Parent != nil {
+			return d.Parent.KeywordError(err.Error())
+		}
 		return d.KeywordError(err.Error())
 	}
 
